@@ -733,15 +733,19 @@ fn insert_anchor(block: &mut Block, id: &str, place: &str, anchor: &str, nth: us
             block.stmts.insert(at, marker);
             Ok(())
         }
-        "loopstart" => {
-            // first statement of the body of loop #nth (right after its ordinal marker)
-            struct LS { want: String, marker: Stmt, done: bool }
+        "loopstart" | "loopend" => {
+            // first / last statement of the body of loop #nth (the body starts with its ordinal marker)
+            struct LS { want: String, marker: Stmt, done: bool, at_end: bool }
             impl VisitMut for LS {
                 fn visit_block_mut(&mut self, b: &mut Block) {
                     if !self.done {
                         if let Some(first) = b.stmts.first() {
                             if norm(first.to_token_stream()) == self.want {
-                                b.stmts.insert(1, self.marker.clone());
+                                if self.at_end {
+                                    b.stmts.push(self.marker.clone());
+                                } else {
+                                    b.stmts.insert(1, self.marker.clone());
+                                }
                                 self.done = true;
                                 return;
                             }
@@ -750,7 +754,7 @@ fn insert_anchor(block: &mut Block, id: &str, place: &str, anchor: &str, nth: us
                     visit_mut::visit_block_mut(self, b);
                 }
             }
-            let mut ls = LS { want: format!("__vp_loop!({});", nth), marker, done: false };
+            let mut ls = LS { want: format!("__vp_loop!({});", nth), marker, done: false, at_end: place == "loopend" };
             ls.visit_block_mut(block);
             if ls.done { Ok(()) } else { Err(format!("lost anchor: loop #{} not found (proof {})", nth, id)) }
         }
